@@ -207,6 +207,9 @@ def enabled(ref, tier):
                 ev.append(["axes_setitem_rename", d if i % 2 == 0 else i, alt, fresh[0]])
             if tier != "quick" or i == len(dims) - 1:
                 ev.append(["copy_set_axis_list", i, alt])
+            if all(len(a[1]) for a in ref.axes) and (tier != "quick" or i == 0):
+                # a bystander: COPIES of the axes list / of an array built on it get the axis replaced: the Dataset is not involved
+                ev.append(["bystander_copy_setitem", i, alt])
             if tier != "quick":
                 ev.append(["set_axis_list", i, alt])
                 ev.append(["set_axis_call", i, alt])
@@ -293,6 +296,12 @@ def apply_impl(ds, ev, made=None):
     elif k == "axes_setitem_pos":
         old = ds.axes[ev[1]]
         ds.axes[ev[1]] = Axis(np.array(_relabeled(py(old.values), ev[2]), dtype=object if isinstance(ev[2], str) else None), old.name)
+    elif k == "bystander_copy_setitem":
+        new = lambda old: Axis(np.array(_relabeled(py(old.values), ev[2]), dtype=object if isinstance(ev[2], str) else None), old.name)
+        c = DimArray(np.zeros([ax.size for ax in ds.axes]) + 5, axes=ds.axes).copy()
+        c.axes[ev[1]] = new(c.axes[ev[1]])
+        ac = ds.axes.copy()
+        ac[ev[1]] = new(ac[ev[1]])
     elif k == "set_axis_from":
         ds.set_axis(ds.axes[ev[2]].values, axis=ev[1])
     elif k == "axes_setitem_rename":
@@ -352,6 +361,8 @@ def apply_ref(ref, ev):
     elif k in ("set_axis_dict", "setattr_dim", "axes_setitem_name"):
         a = ref.ax(ev[1])
         a[1] = _relabeled(a[1], ev[2])
+    elif k == "bystander_copy_setitem":
+        pass
     elif k == "set_axis_from":
         ref.axes[ev[1]][1] = list(ref.axes[ev[2]][1])
     elif k == "axes_setitem_rename":
